@@ -1,6 +1,8 @@
 import Vanguard.Lemmas.Router
 import Vanguard.Lemmas.PathEscape
 import Vanguard.Lemmas.Captures
+import Vanguard.Lemmas.UInt8
+import Vanguard.Gen.Facts
 /-!
   C06 — Routing dispatches exactly the method whose binding matches the request.
   Theorems about `findTarget` (the trie walk) for *every* route table, path, verb and method.
@@ -392,5 +394,18 @@ theorem route_match_never_panics (rules : List (Bytes × Bytes)) (routes : List 
 /-- Non-vacuity: a table with a bounded and an unbounded capture is accepted. -/
 example : (addRoutes 0 [] [("GET".toUTF8.toList, "/v1/{name=shelves/*}/books/{rest=**}".toUTF8.toList)]).toOption.isSome = true := by
   decide +kernel
+
+/-! ### the character classes of the model are the ones in the source as it reads now
+
+  `Gen.*Src` are translated expression by expression from `path_scanner.go` / `path_parser.go` on every
+  run (`extract/`).  For every byte the model's class is the source's; a change of a bound, an operator or
+  a character in the source breaks this theorem. -/
+
+set_option maxRecDepth 100000 in
+theorem source_char_classes_are_model : ∀ c : UInt8,
+    isIdentStart c = Gen.isIdentStartSrc c ∧ isDigitC c = Gen.isDigitSrc c ∧ isIdent c = Gen.isIdentSrc c ∧
+    isFieldPath c = Gen.isFieldPathSrc c ∧ isVariable c = Gen.isVariableSrc c ∧ isLiteral c = Gen.isLiteralSrc c ∧
+    (!isVariable c) = Gen.pathShouldEscapeSrc c :=
+  forall_uint8 (by decide +kernel)
 
 end Vanguard.C06
